@@ -2,6 +2,7 @@ package checks
 
 import (
 	"fmt"
+	"math"
 	"testing"
 
 	"pgregory.net/rapid"
@@ -86,18 +87,17 @@ func checkC08(c *c08Case) (msg string, nontrivial bool, labels []string) {
 	cfg := lib.Cfg{Mode: c.Mode, Batch: c.B, Cache: true}
 	lq := c08Stmt(c, true).Render()
 	c.Query = lq
-	nontrivial = (c.S > 0 && c.S+c.N < c.R) || (c.S > 0 && c.S%c.B == 0) || (c.N > 0 && c.N%c.B == 0)
+	// rows s .. s+n-1, computed without adding s and n (either may be close to
+	// the largest integer)
 	lo := c.S
 	if lo > c.R {
 		lo = c.R
 	}
-	hi := c.S + c.N
-	if hi > c.R {
-		hi = c.R
+	hi := c.R
+	if c.N < hi-lo {
+		hi = lo + c.N
 	}
-	if hi < lo {
-		hi = lo
-	}
+	nontrivial = (c.S > 0 && hi < c.R) || (c.S > 0 && c.S%c.B == 0) || (c.N > 0 && c.N%c.B == 0) || (c.S > 0 && c.S < c.R && c.N > math.MaxInt64-c.S)
 	// matching keys in key order (the reference-filtered list)
 	var match []lib.Pair
 	for _, p := range pairs {
@@ -256,6 +256,16 @@ func TestC08Grid(t *testing.T) {
 			}
 		}
 	}
+	// counts near the integer limits
+	for _, b := range []int{1, 2, 5, 32} {
+		for _, r := range []int{0, 1, 4, 2*b + 1} {
+			for _, s := range []int{0, 1, 2, r, r + 1} {
+				for _, n := range []int{math.MaxInt64, math.MaxInt64 - 1, math.MaxInt64 - s, 1 << 32} {
+					emit(b, r, s, n)
+				}
+			}
+		}
+	}
 	big := []int{0, 1, 31, 32, 33, 63, 64, 65, 96, 97}
 	for _, r := range big {
 		for _, s := range big {
@@ -265,6 +275,8 @@ func TestC08Grid(t *testing.T) {
 		}
 	}
 }
+
+var c08Huge = []int{math.MaxInt64, math.MaxInt64 - 1, math.MaxInt64 - 33, math.MaxInt64/2 + 1, 1 << 32, 1<<31 - 1, 1 << 31}
 
 // TestC08Sampled: large random (b, r, s, n).
 func TestC08Sampled(t *testing.T) {
@@ -285,7 +297,14 @@ func TestC08Sampled(t *testing.T) {
 		}
 		c := &c08Case{B: b, R: r, S: s, N: n, Kind: rapid.SampledFrom(c08Kinds).Draw(rt, "kind"),
 			Mode: rapid.SampledFrom([]string{"row", "batch"}).Draw(rt, "mode"), Two: true, Gap: rapid.IntRange(0, 2).Draw(rt, "gap")}
-		if s == 0 && rapid.Bool().Draw(rt, "oneArg") {
+		// offsets and counts near the integer limits ("everything after row s")
+		if rapid.IntRange(0, 5).Draw(rt, "hugeN") == 0 {
+			c.N = rapid.SampledFrom(c08Huge).Draw(rt, "nHuge")
+		}
+		if rapid.IntRange(0, 11).Draw(rt, "hugeS") == 0 {
+			c.S = rapid.SampledFrom(c08Huge).Draw(rt, "sHuge")
+		}
+		if c.S == 0 && rapid.Bool().Draw(rt, "oneArg") {
 			c.Two = false
 		}
 		c08Run(rt, c, false)
